@@ -65,13 +65,17 @@ def gen(rng, n):
         else:
             d = c11.gen_tree(rng, rng.choice([0, 1, 2]), custom_ok=True, fan=3)
             kind, bodyarg = "mime", c11.toks(d)
-        out.append({"alg": alg, "hc": hc, "bc": bc, "names": names, "subject": subj, "xa": xa, "xb": xb, "sel": sel, "dom": dom, "kind": kind, "body": bodyarg})
+        c = {"alg": alg, "hc": hc, "bc": bc, "names": names, "subject": subj, "xa": xa, "xb": xb, "sel": sel, "dom": dom, "kind": kind, "body": bodyarg}
+        if i % 6 == 5:
+            # DkimConfig::default_config: From, Subject, To, Date under simple/relaxed - judged like the explicit configuration of the same content
+            c.update({"hc": "s", "bc": "r", "names": NAME_LISTS[0], "default": True})
+        out.append(c)
     return out
 
 
 def line_of(c):
     return "dkim.sign\t%s\t%s\t%s\t%s\t%s\t%s\t%s\t%s\t%s\t%s\t%s" % (
-        c["alg"], c["hc"], c["bc"], "|".join(hx(n) for n in c["names"]), hx(c["sel"]), hx(c["dom"]), hx(c["subject"]),
+        c["alg"], "d" if c.get("default") else c["hc"], c["bc"], "|".join(hx(n) for n in c["names"]), hx(c["sel"]), hx(c["dom"]), hx(c["subject"]),
         "!" if c["xa"] is None else hx(c["xa"]), "!" if c["xb"] is None else hx(c["xb"]), c["kind"], c["body"])
 
 
